@@ -413,6 +413,7 @@ pub fn run(cfg: &Cfg, prop: &str) {
     static_dim_matrix(&mut rep, &mut rng);
     two_d(&mut rep, &mut rng, if thorough { 600 } else { 60 });
     input_layouts(&mut rep, &mut rng, if thorough { 600 } else { 80 });
+    query_layouts(&mut rep, &mut rng, if thorough { 400 } else { 60 });
     rep.finish("random 1-D interpolators (data rank 1-3 incl. zero-length trailing axes) x query arrays of rank 0-3 (static Ix0..Ix3 and dynamic, incl. zero-length axes, optionally one out-of-range element) x buffers that are views into a larger poisoned allocation: owned C, F-order, strided windows, reversed axes, permuted axes and combinations; wrong shapes: every axis +-1, trailing / leading permutations, rank +-1; whole allocation dumped after each call; exact run compared with the model's memory image in Coq; all static (data dim, query dim) pairs incl. rank > 6 for the allocating variants; 2-D interpolator; layouts of data / axes / queries");
 }
 
@@ -593,5 +594,71 @@ fn input_layouts(rep: &mut Report, rng: &mut Rng, ncases: usize) {
             }
         }
         let _ = (Ix4::default(), Ix5::default());
+    }
+}
+
+/// query arrays of rank 2-3 in every layout (x and y independently in 2-D): interp_array(q)[i..] must be
+/// interp(q[i..]) whatever the strides of the query arrays
+fn query_layouts(rep: &mut Report, rng: &mut Rng, ncases: usize) {
+    for _ in 0..ncases {
+        let qrank = rng.range(2, 4) as usize;
+        let qshape: Vec<usize> = (0..qrank).map(|_| rng.range(2, 4) as usize).collect();
+        let qn: usize = qshape.iter().product();
+        // ---- 2-D ----
+        let (sc, _f, _c) = crate::lin::gen_bilinear_scen(rng, false, false, false);
+        let (xv, yv) = (sc.xvals(), sc.yvals());
+        let interp = Interp2DBuilder::new(sc.make_data::<f64>()).x(Array1::from(xv.clone())).y(Array1::from(yv.clone())).strategy(Bilinear::new()).build().unwrap();
+        let qx: Vec<f64> = (0..qn).map(|_| xv[0] + (xv[xv.len() - 1] - xv[0]) * rng.range(0, 16) as f64 / 16.0).collect();
+        let qy: Vec<f64> = (0..qn).map(|_| yv[0] + (yv[yv.len() - 1] - yv[0]) * rng.range(0, 16) as f64 / 16.0).collect();
+        let mut reference: Vec<u64> = Vec::new();
+        for i in 0..qn { reference.extend(interp.interp(qx[i], qy[i]).unwrap().iter().map(|v| v.to_bits())); }
+        let xs_c = ArrayD::from_shape_vec(IxDyn(&qshape), qx.clone()).unwrap();
+        let ys_c = ArrayD::from_shape_vec(IxDyn(&qshape), qy.clone()).unwrap();
+        for _ in 0..4 {
+            let (lx, ly) = (rng.below(6), rng.below(6));
+            let (sx, sy) = (gen_layout(rng, &qshape, lx), gen_layout(rng, &qshape, ly));
+            let mut ax_alloc: Vec<f64> = (0..sx.alloc_len()).map(poison_val).collect();
+            let mut ay_alloc: Vec<f64> = (0..sy.alloc_len()).map(poison_val).collect();
+            { let (mut v, _, _) = make_view(&sx, &mut ax_alloc); v.assign(&xs_c); }
+            { let (mut v, _, _) = make_view(&sy, &mut ay_alloc); v.assign(&ys_c); }
+            let (vx, _, _) = make_view(&sx, &mut ax_alloc);
+            let (vy, _, _) = make_view(&sy, &mut ay_alloc);
+            let r = catch_unwind(AssertUnwindSafe(|| interp.interp_array(&vx.view(), &vy.view()).map(|a| a.iter().map(|v| v.to_bits()).collect::<Vec<u64>>())));
+            rep.evaluations += 1;
+            rep.count(&format!("2d-query-layout:{}/{}", sx.label, sy.label));
+            match r {
+                Ok(Ok(bits)) => if bits != reference {
+                    rep.fail(&format!("2-D: interp_array(xs, ys)[i..] differs from interp(xs[i..], ys[i..]) for query layouts x={} y={} (query shape {:?})", sx.label, sy.label, qshape),
+                             obj(vec![("scenario", sc.to_json()), ("qx", J::A(qx.iter().map(|v| J::F(*v)).collect())), ("qy", J::A(qy.iter().map(|v| J::F(*v)).collect()))]));
+                },
+                other => rep.fail(&format!("2-D: interp_array with query layouts x={} y={} failed: {:?}", sx.label, sy.label, other.map(|x| x.is_ok())), sc.to_json()),
+            }
+        }
+        // ---- 1-D ----
+        let n = rng.range(2, 6) as usize;
+        let trail: Vec<usize> = match rng.below(3) { 0 => vec![], 1 => vec![2], _ => vec![2, 2] };
+        let mut dshape = vec![n];
+        dshape.extend_from_slice(&trail);
+        let total: usize = dshape.iter().product();
+        let vals: Vec<f64> = (0..total).map(|_| gen_value(rng, false)).collect();
+        let ax = gen_axis(rng, n, Spacing::Random, false);
+        let i1 = Interp1DBuilder::new(ArrayD::from_shape_vec(IxDyn(&dshape), vals).unwrap()).x(Array1::from(ax.clone())).build().unwrap();
+        let qv: Vec<f64> = (0..qn).map(|_| ax[0] + (ax[n - 1] - ax[0]) * rng.range(0, 32) as f64 / 32.0).collect();
+        let mut ref1: Vec<u64> = Vec::new();
+        for q in &qv { ref1.extend(i1.interp(*q).unwrap().iter().map(|v| v.to_bits())); }
+        let q_c = ArrayD::from_shape_vec(IxDyn(&qshape), qv.clone()).unwrap();
+        for lk in 1..6u64 {
+            let sq = gen_layout(rng, &qshape, lk);
+            let mut alloc: Vec<f64> = (0..sq.alloc_len()).map(poison_val).collect();
+            { let (mut v, _, _) = make_view(&sq, &mut alloc); v.assign(&q_c); }
+            let (vq, _, _) = make_view(&sq, &mut alloc);
+            let r = catch_unwind(AssertUnwindSafe(|| i1.interp_array(&vq.view()).map(|a| a.iter().map(|v| v.to_bits()).collect::<Vec<u64>>())));
+            rep.evaluations += 1;
+            rep.count(&format!("1d-query-layout:{}", sq.label));
+            match r {
+                Ok(Ok(bits)) => if bits != ref1 { rep.fail(&format!("1-D: interp_array(q)[i..] differs from interp(q[i..]) for query layout {} (query shape {:?})", sq.label, qshape), J::Null); },
+                other => rep.fail(&format!("1-D: interp_array with query layout {} failed: {:?}", sq.label, other.map(|x| x.is_ok())), J::Null),
+            }
+        }
     }
 }
